@@ -247,6 +247,34 @@ static void one_execution(Trace& T, Rng& g, int N, int steps, bool is2d)
 					return (int)(2 * g.range(0, n - 1) + 1);
 				return g.coin() ? (g.coin() ? 0 : 1) : (g.coin() ? 2 * n : 2 * n - 1);
 			};
+			if(g.coin(0.08))
+			{	// the extrema over the whole domain scale with the prefactor as well (a negative one exchanges minimum and maximum)
+				bool wantmax = g.coin();
+				intent("2D global extremum");
+				double u = wantmax ? objs[o].Global_Maximum() : objs[o].Global_Minimum();
+				Interpolation_2D F(tx.x, ty.x, f);
+				double umin = F.Global_Minimum(), umax = F.Global_Maximum();
+				double pfac = 1.0;
+				for(auto& op : ops[o])
+				{
+					if(op.set)
+					{
+						F.Set_Prefactor(op.f);
+						pfac = op.f;
+					}
+					else
+					{
+						F.Multiply(op.f);
+						pfac *= op.f;
+					}
+				}
+				double fr = wantmax ? F.Global_Maximum() : F.Global_Minimum();
+				double f1 = (pfac < 0) == wantmax ? umin : umax;	 // the extremum of the unscaled table that becomes this one
+				int sg, ex;
+				pow2_relation(fr, f1, sg, ex);
+				T.emit({{"e", "Q"}, {"o", o + 1}, {"kind", wantmax ? "GMax2" : "GMin2"}, {"p", 0}, {"q", 0}, {"knot", false}, {"same", bits(u) == bits(fr)}, {"r", 0}, {"sg", sg}, {"ex", ex}});
+				continue;
+			}
 			px		 = move(px, Nx);
 			py		 = move(py, Ny);
 			double x = point_of(tx, px, (int)g.range(0, 3), &g), y = point_of(ty, py, (int)g.range(0, 3), &g);
